@@ -278,8 +278,10 @@ class RZILTransformer(Transformer):
                 )
             if src.value_type.bit_width != 64:
                 src = self.init_a_cast(ValueType(False, 64), src)
-            return self.add_op(
-                Assignment("set_return_val", AssignmentType.ASSIGN, ret_val, src)
+            return self.chk_hybrid_dep(
+                self.add_op(
+                    Assignment("set_return_val", AssignmentType.ASSIGN, ret_val, src)
+                )
             )
         if isinstance(items[0], Token):
             # goto, continue, break. They would be dropped silently otherwise.
